@@ -15,10 +15,10 @@ Import ListNotations.
 Local Open Scope nat_scope.
 
 Inductive c10_case :=
-| CV (n : nat) (o : vop) (ops : list pt)       (* value-returning op; n ranks (0: unowned fibers) *)
+| CV (n : nat) (d : Z) (o : vop) (ops : list pt)   (* value-returning op; n ranks (0: unowned fibers); leaf default d *)
 | CR (n : nat) (a b : pt) (obs : list robs).   (* observers on the tensors a (and b), n ranks *)
 
-Definition D : Z := 0%Z.                        (* leaf default of every generated operand *)
+Definition D : Z := 0%Z.                        (* leaf default of the read-only cases *)
 
 (* ---- canonical numbering *)
 Fixpoint dedup (seen : list N) (l : list N) : list N :=
@@ -73,9 +73,9 @@ Record cv_trace := { t_s0 : list snapshot; t_s1 : list snapshot; t_sr : snapshot
 (* the sequence the harness performs: snapshot, operation, snapshot both sides, mutate the
    result (every box +7, every fiber's coordinates +1000, every rank list extended), snapshot,
    mutate the operands (+5), snapshot the result *)
-Definition cv_run (fixed : bool) (n : nat) (o : vop) (ts : list pt) : option cv_trace :=
+Definition cv_run (fixed : bool) (n : nat) (d : Z) (o : vop) (ts : list pt) : option cv_trace :=
   let '(ops, nx) := load_all n ts 0%N in
-  match run_vop fixed D n o ops nx with
+  match run_vop fixed d n o ops nx with
   | None => None
   | Some r =>
     let Sr := side_labels (v_res r) in
@@ -108,7 +108,7 @@ Definition enc_cr (x : (snapshot * snapshot) * (snapshot * snapshot)) : V :=
 
 Definition c10_model (c : c10_case) : V :=
   match c with
-  | CV n o ts => match cv_run true n o ts with Some t => enc_trace t | None => Verr 1%Z end
+  | CV n d o ts => match cv_run true n d o ts with Some t => enc_trace t | None => Verr 1%Z end
   | CR n a b obs => enc_cr (cr_run false n a b obs)
   end.
 
@@ -176,17 +176,17 @@ Definition boundedb (nx : N) (s : snapshot) : bool := forallb (fun l => N.ltb l 
 
 Definition c10_wf (c : c10_case) : bool :=
   match c with
-  | CV n o ts =>
+  | CV n d o ts =>
     negb (Nat.eqb (length ts) O)
     && (let '(ops, nx) := load_all n ts 0%N in forallb (boundedb nx) ops)
-    && match cv_run true n o ts with Some _ => true | None => false end
+    && match cv_run true n d o ts with Some _ => true | None => false end
   | CR n a b obs => Nat.ltb O n && pt_depth_ok n a && pt_depth_ok n b
   end.
 
 Definition c10_holds (c : c10_case) (o : V) : bool :=
   c10_wf c &&
   match c with
-  | CV n _ ts => holds_cv (length ts) o
+  | CV n _ _ ts => holds_cv (length ts) o
   | CR _ _ _ _ => holds_cr o
   end.
 
